@@ -497,7 +497,7 @@ def meter_value(metric_idx, v):
     return v if metric_idx == 0 else 10.0 * v + 1.0
 
 
-def run_meter(plan, inputs, ids=(1, 2)):
+def run_meter(plan, inputs, ids=(1, 2), compose=True):
     """plan: list of (formula, metric_idx) handed to ONE LogicalMeter.start_formula in that order; every ordered
     pair of the returned engines (i < j) is then composed with each operator of BIN and built.
     Returns {label: [(k, value)]}, labels 's<i>' for started formulas and 'c<i>,<j>,<op>' for compositions."""
@@ -509,10 +509,10 @@ def run_meter(plan, inputs, ids=(1, 2)):
         sub = Broadcast(name="subscriptions")
         sub_rx = sub.new_receiver(limit=1000)
         lm = LogicalMeter(reg, sub.new_sender())
-        started = [lm.start_formula(f, METER_METRICS[m]) for f, m in plan]
+        started = [lm.start_formula(p[0], METER_METRICS[p[1]], **({"nones_are_zeros": p[2]} if len(p) > 2 else {})) for p in plan]
         engines = {f"s{i}": e for i, e in enumerate(started)}
         for i in range(len(started)):
-            for j in range(i + 1, len(started)):
+            for j in range(i + 1, len(started) if compose else 0):
                 for op in BIN:
                     a, b = started[i], started[j]
                     if op == "+":
@@ -540,7 +540,11 @@ def run_meter(plan, inputs, ids=(1, 2)):
                 senders[key] = reg.get_or_create(Sample[Quantity], r.get_channel_name()).new_sender()
         for k, vals in enumerate(inputs):
             for (cid, metric), s in senders.items():
-                push(s, Sample(ts(k), Quantity(float(meter_value(METER_METRICS.index(metric), vals[cid])))))
+                v = vals[cid]
+                if v is None:
+                    push(s, Sample(ts(k), None))
+                else:
+                    push(s, Sample(ts(k), Quantity(v if is_missing(v) else float(meter_value(METER_METRICS.index(metric), v)))))
             loop.settle()
         for label, rx in rxs.items():
             o = []
